@@ -102,6 +102,9 @@ func (c *GenConfig) genOps(r *rng.R, n int, depth int, uniq *int) []Op {
 			if r.Chance(1, 2) {
 				op.Cb = append([]Op{mk("yield", 0)}, op.Cb...)
 			}
+			if depth == 0 && r.Chance(1, 5) {
+				op.Cb = append(op.Cb, mk("boom", 0)) // f panics (possibly after suspending)
+			}
 			ops = append(ops, op)
 		case "map":
 			k := r.Intn(4)
@@ -122,6 +125,9 @@ func (c *GenConfig) genOps(r *rng.R, n int, depth int, uniq *int) []Op {
 				}
 				if r.Chance(1, 4) {
 					op.Stop = 1 + r.Intn(2)
+				}
+				if depth == 0 && r.Chance(1, 8) {
+					op.Cb = append(op.Cb, mk("boom", 0))
 				}
 				ops = append(ops, op)
 			}
